@@ -131,7 +131,14 @@ func fill(dst reflect.Value, v *Val) {
 // cache, annotations computed by other code, and local configuration inside
 // the exported tls.Certificate.
 var nonWire = map[string]bool{
-	"serverKeyExchangeMsg.digest":              true, // filled by the key agreement after verification, for the handshake log
+	"serverKeyExchangeMsg.digest": true, // filled by the key agreement after verification, for the handshake log
+	// Bookkeeping fields of clientHelloMsg that have no wire representation at all:
+	// neither marshal nor unmarshal touches them (the SCT extension is driven by
+	// `scts`; `unknownExtensions` carries a TODO in the source).  Demanding that they
+	// survive a marshal/unmarshal round trip asks for more than C30 states, so they
+	// are outside the message value, exactly like `raw` (DESIGN.md section 6).
+	"clientHelloMsg.sctEnabled":                true,
+	"clientHelloMsg.unknownExtensions":         true,
 	"Certificate.PrivateKey":                   true,
 	"Certificate.SupportedSignatureAlgorithms": true,
 	"Certificate.Leaf":                         true,
